@@ -11,10 +11,10 @@ import (
 
 func init() {
 	register(&core.Property{
-		ID:    "C10",
-		Title: "Gateway API routes attach only where class, listener and namespace rules allow",
+		ID:          "C10",
+		Title:       "Gateway API routes attach only where class, listener and namespace rules allow",
 		Explanation: "Static decision of the admission functions: (1) the complete decision tables of checkListenerAllowed, checkListenerAllowedKind (per element) and checkListenerAllowedNamespace equal the Gateway API rules (Same / All / Selector, nil means denied); (2) syncRoute reaches a Gateway only for group/kind Gateway (nil or empty default to it), resolves the parent namespace per parentRef from that parentRef or the route's namespace — never from a value carried over from another parentRef — and skips a Gateway the cache did not return; (3) the three GetGateway* getters return (nil, nil) exactly for a readable Gateway of a foreign class, class validity is recomputed from the GatewayClass on every call, and the three IsValidGatewayClass* compare the controller name; (4) in both route kinds, hosts, backends and TCP services are created only past the sectionName match and a nil result of checkListenerAllowed.",
-		NotDecided: []string{"the product of object sets on concrete clusters; backendRef weights (arithmetic, see C16)"},
+		NotDecided:  []string{"the product of object sets on concrete clusters; backendRef weights (arithmetic, see C16)"},
 		Rules: []*core.Rule{
 			{ID: "C10.allowed", Floor: 3, Run: c10Allowed, Doc: "Decision tables of the three checkListenerAllowed* functions."},
 			{ID: "C10.parent", Floor: 4, Run: c10Parent, Doc: "syncRoute: group/kind defaults and test; parent namespace is the parentRef's or the route's, computed inside the iteration; nil gateway source is skipped."},
@@ -296,8 +296,10 @@ func c10Class(c *core.Ctx) {
 	}
 	if fn := c.Fn("controller/services", "c.isValidGateway"); fn != nil {
 		tableRule(c, "controller/services.c.isValidGateway", fn, 0, matchers{
-			"realerr":  has(".IgnoreNotFound(", "!= nil)"),
-			"err":      func(k string) bool { return strings.HasSuffix(k, "#1 != nil)") && strings.Contains(k, "getGatewayClass(") && !strings.Contains(k, "IgnoreNotFound") },
+			"realerr": has(".IgnoreNotFound(", "!= nil)"),
+			"err": func(k string) bool {
+				return strings.HasSuffix(k, "#1 != nil)") && strings.Contains(k, "getGatewayClass(") && !strings.Contains(k, "IgnoreNotFound")
+			},
 			"ourclass": has("IsValidGatewayClass("),
 		}, func(v map[string]bool) bool {
 			if v["realerr"] || v["err"] {
@@ -407,7 +409,9 @@ func c10SourceNil(c *core.Ctx) {
 		}
 	}
 	b, _, dup := bindDeps(t, nonnil, matchers{
-		"err":   func(k string) bool { return strings.HasPrefix(k, "(phi{") && strings.HasSuffix(k, "!= nil)") && strings.Contains(k, "GetGateway") },
+		"err": func(k string) bool {
+			return strings.HasPrefix(k, "(phi{") && strings.HasSuffix(k, "!= nil)") && strings.Contains(k, "GetGateway")
+		},
 		"isnil": has("reflect.Value).IsNil("),
 	})
 	if dup != "" {
